@@ -19,14 +19,43 @@ theorem read_extend (cfg : Cfg) (ty : Ty) (hplain : ty.plain = true) (ctx : Ctx)
     read cfg ty ctx d2 pos = .ok (v, p) :=
   Lemmas.read_extend cfg ty hplain ctx d1 pos v p hr d2 hpre
 
+/-
+  The window property does NOT hold for every plain type (the first version of `read_prefix` assumed only `ty.plain`).
+  Counterexample (checked with `#eval`), with `cfg0` as below:
+    inner := .struct true  [x : .sc (.pint 4 false) 4, y : .sc (.pint 4 false) 4]         -- aligned, size 8, alignment 4
+    outer := .struct false [a : .sc .char 1, s : .arr inner (.fixed 2), b : .sc .char 1]   -- packed: offsets 0, 1, 17
+    d1    := the 20 bytes 0, 1, …, 19
+  `outer.plain = true`, `read cfg0 outer [] d1 0 = .ok (_, 18)`, but `read cfg0 outer [] (d1.take 18) 0 = .error .eof`.
+  Element 0 of `s` starts at the misaligned position 1 and pads its tail on the absolute position (9 → 12), so element 1
+  occupies bytes 12..19; the packed outer layout nevertheless puts `b` at offset 17 and the reader seeks BACK to 17. The
+  end position 18 is smaller than the last byte consumed (19). A backward seek needs an aligned structure at a start
+  that is not a multiple of its alignment inside a statically laid out structure: mixed `align` flags as here, or a
+  misaligned top-level start. `read_prefix` therefore assumes one flag throughout, power-of-two alignments and an aligned
+  start (as `roundtrip_S` does), and no bit-fields; `read_extend` above needs none of this.
+-/
+
 /-- **Prefix (window) theorem.** If parsing succeeds on input `d1` and ends at position `p`, then it succeeds with the very
     same value and end position on every input `d2` that starts with the first `p` bytes of `d1` (all of `d1` when `d1` is
-    shorter than `p`, which happens when trailing alignment padding is skipped past the end). For every plain type, every
-    context, every start position; no assumption on the value. -/
-theorem read_prefix (cfg : Cfg) (ty : Ty) (hplain : ty.plain = true) (ctx : Ctx) (d1 : Bytes) (pos : Nat) (v : Val) (p : Nat)
+    shorter than `p`, which happens when trailing alignment padding is skipped past the end). For every plain type without
+    bit-fields whose structures were all defined with the same `align` flag, with power-of-two alignments, every context,
+    every start position that is a multiple of the alignments occurring in the type (any position in packed mode would do;
+    position 0 always is); static or dynamic (expression-sized and null-terminated arrays, LEB128); no assumption on the
+    value. -/
+theorem read_prefix (cfg : Cfg) (al : Bool) (ty : Ty) (hplain : ty.plain = true) (hnb : ty.noBits = true)
+    (hu : ty.uniformAlign al = true) (hp : ty.pow2Aligned cfg) (ctx : Ctx) (d1 : Bytes) (pos : Nat)
+    (hal : ty.alignsDivide cfg pos = true) (v : Val) (p : Nat)
     (hr : read cfg ty ctx d1 pos = .ok (v, p)) (d2 : Bytes) (hpre : d1.take p <+: d2) :
-    read cfg ty ctx d2 pos = .ok (v, p) := by
-  sorry
+    read cfg ty ctx d2 pos = .ok (v, p) :=
+  Lemmas.read_prefix_alt cfg al ty hplain hnb hu hp ctx d1 pos hal v p hr d2 hpre
+
+/-- **Window corollary.** Under the same hypotheses the result depends on nothing after the end position: the first `p`
+    bytes followed by anything else parse to the same value with the same end position. -/
+theorem read_window (cfg : Cfg) (al : Bool) (ty : Ty) (hplain : ty.plain = true) (hnb : ty.noBits = true)
+    (hu : ty.uniformAlign al = true) (hp : ty.pow2Aligned cfg) (ctx : Ctx) (d1 : Bytes) (pos : Nat)
+    (hal : ty.alignsDivide cfg pos = true) (v : Val) (p : Nat)
+    (hr : read cfg ty ctx d1 pos = .ok (v, p)) (post : Bytes) :
+    read cfg ty ctx (d1.take p ++ post) pos = .ok (v, p) :=
+  read_prefix cfg al ty hplain hnb hu hp ctx d1 pos hal v p hr _ (List.prefix_append _ _)
 
 /-- **Round trip (fragment S).** Writing a value of the type at absolute position `pos` and parsing the result — embedded
     after any `pre` of that length and before any `post`, with any context — returns the value and ends exactly after the
@@ -85,13 +114,9 @@ def ty0 : Ty := .struct true (.cons "a" false (.sc (.pint 1 false) 1) none (.con
   (.cons "p" false (.ptr (.sc .void 0)) none .nil)))
 def v0 : Val := .record (.cons (.int 7) (.cons (.record (.cons (.int (-2)) (.cons (.bytes [1, 2, 3]) .nil))) (.cons (.ptr 9) .nil)))
 example : ty0.fragS cfg0 = true ∧ ty0.plain = true ∧ ty0.uniformAlign true = true ∧ ty0.alignsDivide cfg0 0 = true := by decide +kernel
+example : ty0.noBits = true := by decide +kernel
 example : HasTy cfg0 v0 ty0 := by
   exact .struct (.cons (.int rfl (by decide)) (.cons (.struct (.cons (.int rfl (by decide)) (.cons (.chars rfl) .nil)))
     (.cons (.ptr (by decide)) .nil)))
 
-#print axioms read_extend
-#print axioms roundtrip_S
-#print axioms write_total_S
-#print axioms write_reject
-#print axioms read_size_S
 end Cstruct.Core
